@@ -511,3 +511,48 @@ Definition sort_by {A} (key : A -> Z) (l : list A) : list A := fold_right (inser
 Definition shift_boxbounds (xyz : list (list Q)) (box : list (Q * Q)) : list (list Q) * list Q :=
   (map (fun r => map (fun p => fst p - fst (snd p))%Q (combine r box)) xyz,
    map (fun b => snd b - fst b)%Q box).
+
+(* ------------------------------------------------------------------ E. concrete instances
+   (used by the correspondence runner; the theorems are stated over the generic parts) *)
+
+(* int(line.strip()) for plain unsigned digit strings; anything else = ValueError *)
+Definition count_of_str (l : str) : option nat :=
+  let s := strip l in
+  if negb (is_nil s) && forallb is_digit s then Some (Z.to_nat (digits_value 0 s)) else None.
+
+(* frame idx of an xyz trajectory: (header.strip(), [(name, floats)] per atom line) *)
+Definition xyz_frame (ls : list str) (idx : nat) : option (str * list (option (str * list (option Q)))) :=
+  option_map (fun s => (strip (s_header s), map xyz_read_line (s_atoms s)))
+             (xyz_extract count_of_str ls idx).
+
+(* get_box_from_header: low = header.lower(); low.split("box:")[1].strip().split() *)
+Definition lower (c : Z) : Z := if (65 <=? c) && (c <=? 90) then c + 32 else c.
+Fixpoint is_prefix (p s : str) : bool :=
+  match p, s with
+  | [], _ => true
+  | a :: p', b :: s' => (a =? b) && is_prefix p' s'
+  | _ :: _, [] => false
+  end.
+(* text after the first occurrence of p (None = p does not occur) *)
+Fixpoint after_sub (p s : str) : option str :=
+  match s with
+  | [] => None
+  | c :: r => if is_prefix p s then Some (skipn (length p) s) else after_sub p r
+  end.
+(* text before the first occurrence of p (all of s when p does not occur) *)
+Fixpoint before_sub (p s : str) : str :=
+  match s with
+  | [] => []
+  | c :: r => if is_prefix p s then [] else c :: before_sub p r
+  end.
+Definition box_tag : str := [98; 111; 120; 58].   (* "box:" *)
+Definition xyz_header_box (h : str) : option (list (option Q)) :=
+  match after_sub box_tag (map lower h) with
+  | None => None
+  | Some r => Some (read_floats (before_sub box_tag r))
+  end.
+
+(* read_lammpstrj on rows tagged (id, line number): the three box rows and the atom rows
+   sorted by id *)
+Definition lmp_read_rows (rows : list (Z * nat)) (frame n : nat) : list nat * list nat :=
+  let '(b, a) := lmp_frame_rows rows frame n in (map snd b, map snd (sort_by fst a)).
